@@ -95,8 +95,8 @@ CHECKS = {
     ),
     'C09': dict(
         level='exploration',
-        units=[U('^TestC09_History$', (6, 5000), (8, 40000)), U('^TestC09_ArbitraryWeights$', (3, 8000), (4, 50000)), U('^TestC09_HandBuilt$', (3, 8000), (4, 50000)), U('^TestC09_ObservedContent$', (2, 10000), (3, 300000))],
-        essential_labels=['mode:A', 'mode:B', 'mode:C', 'shape:sparse', 'shape:contiguous', 'shape:both', 'nil-store-message', 'negative-offset', 'custom-offset', 'contiguous-run>=63', 'target:collow', 'target:paginated', 'source:paginated', 'source:sparse', 'cleared-then-refilled', 'mode:observed-content', 'merge:same-kind-other-limit'],
+        units=[U('^TestC09_History$', (6, 5000), (8, 40000)), U('^TestC09_ArbitraryWeights$', (3, 8000), (4, 50000)), U('^TestC09_HandBuilt$', (3, 8000), (4, 50000)), U('^TestC09_ObservedContent$', (2, 10000), (3, 300000)), U('^TestC09_PaginatedScenarios$', (2, 6000), (3, 150000))],
+        essential_labels=['mode:A', 'mode:B', 'mode:C', 'shape:sparse', 'shape:contiguous', 'shape:both', 'nil-store-message', 'negative-offset', 'custom-offset', 'contiguous-run>=63', 'target:collow', 'target:paginated', 'source:paginated', 'source:sparse', 'cleared-then-refilled', 'mode:observed-content', 'merge:same-kind-other-limit', 'mode:paginated-scenario'],
         assumptions=COMMON_ASSUMPTIONS + ["google.golang.org/protobuf Marshal/Unmarshal/Equal are trusted"],
     ),
     'C10': dict(
@@ -144,7 +144,7 @@ CHECKS = {
     'C17': dict(
         level='exploration',
         units=[U('^TestC17$', (8, 8000), (16, 60000)), U('^TestC17_ExtremeFanout$', (3, 10), (8, 300))],
-        essential_labels=['relation:equal', 'relation:finer', 'relation:coarser', 'relation:aligned', 'identity', 'scale:1', 'scale:other', 'negative-side', 'variant:exact', 'shape:single-bin', 'shape:two-far-bins', 'source:paginated', 'target:dense', 'target:sparse', 'relation:extreme-fanout', 'fanout>2^20', 'source-offset:large', 'target-offset:large'],
+        essential_labels=['relation:equal', 'relation:finer', 'relation:coarser', 'relation:aligned', 'identity', 'scale:1', 'scale:other', 'negative-side', 'variant:exact', 'shape:single-bin', 'shape:two-far-bins', 'source:paginated', 'target:dense', 'target:sparse', 'relation:extreme-fanout', 'fanout>2^20', 'source-offset:large', 'target-offset:large', 'magnitude:extreme'],
         assumptions=COMMON_ASSUMPTIONS + ["weight tolerance 64*2^-52/min(alpha1,alpha2)*W (each proportion is a ratio of differences of nearly equal bounds)", "values in [1e-4,1e4] and scale in [1e-3,1e3]: well inside both mappings' ranges, as the property requires"],
     ),
     'C18': dict(
